@@ -164,9 +164,23 @@ class Scenario:
         l = self.field(idx, 2)
         if l is UNINIT:
             return None
-        links = l.fields[1]
-        own = links.fields[0]
+        # the table is found by looking for the owned map inside the RefCell<Links> value, whatever wraps it
+        # (a representation such as Option<HashMap> with None is an empty table)
+        def find(v, depth=0):
+            if isinstance(v, Own):
+                return v
+            if isinstance(v, Agg) and depth < 5:
+                for f in v.fields:
+                    r = find(f, depth + 1)
+                    if r is not None:
+                        return r
+            return None
+        own = find(l)
+        if own is None:
+            return {}
         mo = self.E.heap[own.obj]
+        if mo.kind != 'map':
+            return {}
         if not mo.live:
             return 'freed'
         out = {}
@@ -530,6 +544,11 @@ class Scenario:
                     self.run_op({'op': 'links', 'h': name})
 
     def on_uncaught_panic(self, p):
+        if 'C16' in self.oracles and getattr(self, 'clone_of_dead', None):
+            v = Violation('C16', 'clone-of-dead-unwinds', 'Rc::clone of a handle to a destroyed object raised an ordinary (catchable) panic instead of terminating the process: %s' % p.msg,
+                          self.model_values(None))
+            v.stack = getattr(p, 'stack', [])
+            raise v
         if not self.opts.get('panics_ok'):
             raise Violation(self.opts.get('target', 'C10'), 'library-panic',
                             'operation %d (%s) panicked: %s' % (self.op_index, self.script['ops'][self.op_index].get('op'), p.msg),
